@@ -67,6 +67,15 @@ static void* sb_thread(void* arg) { long me = (long)arg; int i, r; long rounds =
         if (me == 0) { for (i = 0; i < SBN; i++) { if (sbr[0][i] == 0 && sbr[1][i] == 0) hbad++; hst(&root, sbx(i), 0, 0); hst(&root, sby(i), 0, 0); } }
     }
     return NULL; }
+/* compare-exchange increments: a thread counts an increment only when the exchange reports success (returned old value =
+ * expected).  If two threads can win the same exchange, the cell ends up below the number of reported successes. */
+static fn hcas;
+static void* cas_inc(void* arg) { long me = (long)arg, i; pthread_barrier_wait(&bar);
+    for (i = 0; i < hn; i++) {
+        U64 old = hld(inst[me], haddr, 0, 0) & hmask, got;
+        while ((got = hcas(inst[me], haddr, (old + 1) & hmask, old) & hmask) != old) old = got;
+    }
+    return NULL; }
 static int cmp64(const void* a, const void* b) { U64 x = *(const U64*)a, y = *(const U64*)b; return x < y ? -1 : x > y; }
 static volatile int go;
 static void* adder(void* arg) { long n = (long)arg, i; while (!go) {} for (i = 0; i < n; i++) (void)at_add32(inst[0], 80, 1, 0); return NULL; }
@@ -115,6 +124,20 @@ int main(int argc, char** argv) {
             pthread_create(&th[0], NULL, sb_thread, (void*)0L); pthread_create(&th[1], NULL, sb_thread, (void*)1L);
             pthread_join(th[0], NULL); pthread_join(th[1], NULL);
             printf("{\"op\":\"storebuffer%s\",\"threads\":2,\"per_thread\":%ld,\"lost\":%ld,\"bad_final\":0}\n", tags[k], hn * SBN, hbad);
+            hn = saved;
+        }
+        for (k = 0; k < 7; k++) {
+            char nm[16]; long t2, saved = hn; U64 final;
+            snprintf(nm, sizeof nm, "cas%s", tags[k]); hcas = lookup(nm); snprintf(nm, sizeof nm, "ld%s", tags[k]); hld = lookup(nm);
+            snprintf(nm, sizeof nm, "st%s", tags[k]); hst = lookup(nm);
+            haddr = cells[k]; hmask = widths[k] == 64 ? ~(U64)0 : (((U64)1 << widths[k]) - 1); hn = hn / 4;
+            hst(&root, haddr, 0, 0);
+            pthread_barrier_init(&bar, NULL, (unsigned)nt);
+            for (t2 = 0; t2 < nt; t2++) pthread_create(&th[t2], NULL, cas_inc, (void*)t2);
+            for (t2 = 0; t2 < nt; t2++) pthread_join(th[t2], NULL);
+            final = hld(&root, haddr, 0, 0) & hmask;
+            printf("{\"op\":\"casinc%s\",\"threads\":%d,\"per_thread\":%ld,\"lost\":%llu,\"bad_final\":%d}\n", tags[k], nt, hn,
+                   (unsigned long long)((((U64)nt * (U64)hn) & hmask) - final), final != (((U64)nt * (U64)hn) & hmask));
             hn = saved;
         }
         for (k = 0; k < 7; k++) for (mode = 0; mode < 2; mode++) {
